@@ -67,9 +67,16 @@ P = {'id': 'C11',
              'parameters of the theorems (not modelled, quantified over): slice::sort_unstable of the standard library (tim-sort strategy, the "merge" of the '
              'parallel LSD path, Vec::external_sort below the buffer size) - any function returning the sorted permutation; the size of the rayon pool - any '
              'thread count >= 1 (the harness reads it off AdvancedRadixSort::stats().threads_used)',
-             'models of code that is NOT in the pinned tree (stated as such): the LSD loop that skips constant-digit passes, merge_runs in passes of '
-             'merge_ways runs, the MSD early return on depth >= max_bytes - each with the theorem that says what such a change must compute and a refutation '
-             'of the wrong variant',
+             'models of code that is NOT in the pinned tree (stated as such): the LSD loop that skips constant-digit passes, the MSD early return on '
+             'depth >= max_bytes - each with the theorem that says what such a change must compute and a refutation of the wrong variant; merge_runs in '
+             'passes of merge_ways runs IS in the tree since fix a002a0e (the oldest merge_ways runs are merged into a new run until at most merge_ways are '
+             'left): the model merges every group once and then the partial results - a different grouping, proved to compute the same list as the single '
+             'pass (external_sort_multipass_sorts), which is what the correspondence check compares',
+             'oracle breadth (harness/src/c11_wide.rs, spec-only cells): operation histories on one RadixSort / AdvancedRadixSort / CacheObliviousSort / '
+             'ReplaceSelectSort / MultiWayMerge / EnhancedLoserTree / SetOperations object, every constructor and configuration field, u8 / u16 / unit / '
+             'String / signed / record element types, user-defined RadixSortable and MergeSource implementations, key-only comparators on tagged elements '
+             '(which sequence an element is copied from), the SIMD comparison / minimum helpers, and inputs of 2^16 .. 2^20 elements around the default '
+             'switch points, described by (kind, n, seed)',
              'spec-only cells (direct oracle + the verified checker is_sorted_perm evaluated in Coq on the implementation output): the custom-comparator '
              'loser tree, ReplaceSelectSort::with_comparator, the two largest configurations (default CacheObliviousSort on 5 000 / 1.1 M elements, sort_bytes with a '
              '40-300 KB common prefix: modelled mechanisms, inputs too large for Coq); inside modelled cells: LSD passes with radix_bits > 8 and inputs above the per-op size limit (90-400 '
